@@ -536,6 +536,9 @@ Proof.
   apply payback_ext. unfold running. apply running_from_ext; [assumption | reflexivity].
 Qed.
 
+(* ---------- NPV is homogeneous of degree one in the cash flow (any discount rate, 1 + r = 0 included) ---------- *)
+Theorem npv_scale r k : forall cf, npv r (map (Qmult k) cf) == k * npv r cf.
+Proof. induction cf as [|x cf IH]; simpl; [ring|]. rewrite IH. unfold Qdiv. ring. Qed.
 (* homogeneity of the code's own (vector) computation, through C01 *)
 Lemma teq_sym a b : teq a b -> teq b a.
 Proof. unfold teq. intros (H1 & H2 & H3). repeat split; symmetry; assumption. Qed.
